@@ -13,10 +13,10 @@ SRCS = ['src/crypto/btok/btok_sm.c', 'src/core/apdu.c', 'src/core/der.c', 'src/c
 
 def obligations(tier):
     q = tier == 'quick'
-    cmd = [('c_%d_%d' % (n, r), '0, %d, %d' % (n, r)) for n in ((0, 16) if q else (0, 1, 5, 15, 16, 17, 20)) for r in ((0, 3, 6) if q else (0, 1, 2, 3, 4, 5, 6))]
+    cmd = [('c_%d_%d' % (n, r), '0, %d, %d' % (n, r)) for (n, r) in (((0, 3), (16, 6)) if q else [(n, r) for n in (0, 1, 5, 15, 16, 17, 20) for r in (0, 1, 2, 3, 4, 5, 6)])]
     rsp = [('r_%d' % n, '1, %d, 0' % n) for n in ((0, 1, 16) if q else (0, 1, 5, 15, 16, 17, 20))]
     common = dict(harness='harness/C17/sm.c', srcs=SRCS, stub_files=['stubs/belt_block_uf.c'], stubs=['belt_block_uf'], unwind=60,
-                  unwind_rules=[(r'^belt\w+Step\w*\.\d+$', 4)], cbmc_extra=['--max-field-sensitivity-array-size', '512'], timeout=900, mem_gb=24)
+                  unwind_rules=[(r'^belt\w+Step\w*\.\d+$', 4)], cbmc_extra=['--max-field-sensitivity-array-size', '512'], timeout=900, mem_gb=20)
     return [Ob(name='c17_sm_cmd', instances=cmd, funcs=['btokSMCmdWrap', 'btokSMCmdUnwrap', 'apduCmdEnc', 'apduCmdDec'],
                bound='%d (data length, Le form) tuples: data length in the list, Le in {0, 1, 256, 257, 65536, 12345, symbolic}; CLA/INS/P1/P2, data, keys and the 128-bit counter symbolic (both parities)' % len(cmd), **common),
             Ob(name='c17_sm_resp', instances=rsp, funcs=['btokSMRespWrap', 'btokSMRespUnwrap'],
